@@ -159,6 +159,13 @@ func vh_C11_L2_credit_across_streams() {
 	f1.endingFragment = false
 	vassert(vDeliver(a, f1) == nil, "DATA ok")
 	vassert(a.getMyReceiverWindowCredit() == 1, "credit = buffer - bytes held")
+	if vPick(2) == 1 {
+		// the application closes its own direction of that stream: the stream stays registered
+		// (and keeps holding what it received) until the peer resets its side
+		vassert(a.streams[4].Close() == nil, "local close")
+		_ = vWriterWake(a)
+		vassert(a.getMyReceiverWindowCredit() == 1, "bytes held by a half-closed stream still count against the window")
+	}
 	f2 := vDataChunk(a, cum+5, 6, true, 3) // accepted because some credit is left; the sum now exceeds the buffer
 	f2.endingFragment = false
 	vassert(vDeliver(a, f2) == nil, "DATA ok")
